@@ -61,6 +61,7 @@ theorem Seg_step {P : Params} {A : Assembler} {script : List Item} {s s' : State
       · next x rest d hpend hitem =>
         split at hs
         · injection hs with hs; subst hs
+          strip_gap
           rw [c1] at hitem
           have hseg := take_drop_succ script s.iterStart s.got.length _ hitem
           rw [hpend] at c3
@@ -68,11 +69,11 @@ theorem Seg_step {P : Params} {A : Assembler} {script : List Item} {s s' : State
           refine ⟨?_, by simpa using h2⟩
           by_cases hr : rest = []
           · subst hr
-            simp only [if_true, account_iterStart, applyData_iterStart, List.length_append,
+            simp only [if_true, account_iterStart, gapUpd_iterStart, applyData_iterStart, List.length_append,
               List.length_cons, List.length_nil, List.map_append, List.map_cons, List.map_nil]
             simp only [List.length_nil] at c3
             exact ⟨by omega, by rw [hseg, c2], by omega⟩
-          · simp only [if_neg hr, account_iterStart, applyData_iterStart, List.length_append,
+          · simp only [if_neg hr, account_iterStart, gapUpd_iterStart, applyData_iterStart, List.length_append,
               List.length_cons, List.length_nil, List.map_append, List.map_cons, List.map_nil]
             exact ⟨by omega, by rw [hseg, c2], by omega⟩
         · cases hs
@@ -87,6 +88,8 @@ theorem Seg_step {P : Params} {A : Assembler} {script : List Item} {s s' : State
       split at hs
       · split at hs
         · dsimp only at hs
+          split at hs
+          · injection hs with hs; subst hs; exact ⟨trivial, h2⟩
           split at hs <;> (injection hs with hs; subst hs) <;>
             first
               | exact ⟨trivial, h2⟩
@@ -180,6 +183,7 @@ theorem Asmd_step {P : Params} {A : Assembler} {script : List Item} {s s' : Stat
         split at hs
         · next hlen =>
           injection hs with hs; subst hs
+          strip_gap
           refine ⟨?_, by simpa using h2⟩
           rcases hsh with ⟨hf, _, hsl⟩ | ⟨hf, pre, suf, hpay, hsl, _⟩
           · -- leader transfer
@@ -195,8 +199,8 @@ theorem Asmd_step {P : Params} {A : Assembler} {script : List Item} {s s' : Stat
             refine ⟨?_, ?_⟩
             · intro _
               refine ⟨d, by simp [hgot], by simpa using a1, ?_, ?_⟩
-              · simp only [account_leaderBuf, hx, applyData, leaderSlot]; exact writeAt_zero_take _ _
-              · simp only [account_leaderBuf, hx, applyData, leaderSlot]
+              · simp only [account_leaderBuf, gapUpd_leaderBuf, hx, applyData, leaderSlot]; exact writeAt_zero_take _ _
+              · simp only [account_leaderBuf, gapUpd_leaderBuf, hx, applyData, leaderSlot]
                 rw [writeAt_length] <;> omega
             · intro hnone; rw [a1] at hnone; cases hnone
           · obtain ⟨a1, a2, a3⟩ := account_first_some (applyData s x.slot d) d.length (by simpa using hf)
@@ -220,11 +224,11 @@ theorem Asmd_step {P : Params} {A : Assembler} {script : List Item} {s s' : Stat
               refine ⟨?_, ?_⟩
               · intro _
                 refine ⟨p0, hhead, by rw [a1, applyData_first]; exact g2, ?_, ?_⟩
-                · simpa [account_leaderBuf, hx, applyData, trailerSlot] using g3
-                · simpa [account_leaderBuf, hx, applyData, trailerSlot] using g4
+                · simpa [account_leaderBuf, gapUpd_leaderBuf, hx, applyData, trailerSlot] using g3
+                · simpa [account_leaderBuf, gapUpd_leaderBuf, hx, applyData, trailerSlot] using g4
               · refine ⟨d, by simp, by simpa using a2, ?_, ?_⟩
-                · simp only [account_trailerBuf, hx, applyData, trailerSlot]; exact writeAt_zero_take _ _
-                · simp only [account_trailerBuf, hx, applyData, trailerSlot]
+                · simp only [account_trailerBuf, gapUpd_trailerBuf, hx, applyData, trailerSlot]; exact writeAt_zero_take _ _
+                · simp only [account_trailerBuf, gapUpd_trailerBuf, hx, applyData, trailerSlot]
                   rw [writeAt_length] <;> omega
             | cons y suf' =>
               simp only [List.cons_append, List.cons.injEq] at hsl
@@ -236,9 +240,9 @@ theorem Asmd_step {P : Params} {A : Assembler} {script : List Item} {s s' : Stat
               refine ⟨?_, ?_⟩
               · intro _
                 refine ⟨p0, hhead, by rw [a1, applyData_first]; exact g2, ?_, ?_⟩
-                · simp only [account_leaderBuf, applyData, hx, hty]
+                · simp only [account_leaderBuf, gapUpd_leaderBuf, applyData, hx, hty]
                   split <;> exact g3
-                · simp only [account_leaderBuf, applyData, hx, hty]
+                · simp only [account_leaderBuf, gapUpd_leaderBuf, applyData, hx, hty]
                   split <;> exact g4
               · intro hnone; rw [a1] at hnone; exact absurd hnone (by simpa using hf)
         · cases hs
@@ -258,6 +262,8 @@ theorem Asmd_step {P : Params} {A : Assembler} {script : List Item} {s s' : Stat
         rw [l2] at hlast; injection hlast with hlast; subst hlast
         split at hs
         · dsimp only at hs
+          split at hs
+          · injection hs with hs; subst hs; exact ⟨trivial, h2⟩
           split at hs
           all_goals first
             | (injection hs with hs; subst hs; exact ⟨trivial, h2⟩)
